@@ -81,3 +81,17 @@ Print Assumptions C15_surfaceb_means_closed_simple_surface.
 Example C15_surfaceb_example : surfaceb init_duals = true /\
   exists l, sort_face_vertices (map (fun d => mkVertex d hdefault) init_duals) 0 (face_vertex_list (map (fun d => mkVertex d hdefault) init_duals) 0) = Some l /\ length l = 4%nat.
 Proof. split; [vm_compute; reflexivity|]. eexists. split; vm_compute; reflexivity. Qed.
+
+From MV Require Import Proofs.EdgeCount.
+(* half of Euler's relation, for every cell whose duals pass the decidable surface test (evaluated per compared cell by the extracted model):
+   each undirected edge is used by exactly two dual triangles, once per direction, so 3 V = 2 E; with V - E + F = 2 (checked on the
+   implementation's output per cell) the face count is F = V / 2 + 2 *)
+Theorem C15_three_V_is_two_E : forall ds : list dual, surfaceb ds = true ->
+  length (filter up (dedges ds)) = length (filter down (dedges ds)) /\
+  (3 * length ds = 2 * length (filter up (dedges ds)))%nat.
+Proof. exact three_V_is_two_E. Qed.
+Print Assumptions C15_three_V_is_two_E.
+
+(* non-vacuity: the initial box has 8 vertices and 12 edges *)
+Example C15_edge_count_example : surfaceb init_duals = true /\ length init_duals = 8%nat /\ length (filter up (dedges init_duals)) = 12%nat.
+Proof. repeat split; vm_compute; reflexivity. Qed.
